@@ -163,6 +163,47 @@ def check_case(ip, c):
     return bad, drift
 
 
+def relation_sweep(ip, rng):
+    """Relations that need no expected value (code against code) on shapes and parameters outside the model's enumeration:
+    rank-4 cubes, and brightest-pixel fractions whose pixel count threshold*ny*nx falls on a rounding tie."""
+    bad = []
+    n = 0
+    for (ny, nx) in [(4, 4), (5, 9), (5, 5), (10, 9), (7, 6), (9, 5), (3, 11)]:
+        frames = rng.integers(0, 50, size=(3, ny, nx)).astype(float) + np.arange(ny * nx).reshape(ny, nx) * 1e-3     # no value ties
+        for frac in np.round(np.arange(0.05, 1.0, 0.05), 2):
+            if int(round(frac * nx * ny)) < 2:
+                continue
+            st = np.asarray(ip.brightest_pixel(frames.copy(), float(frac)), float)
+            n += 1
+            for i in range(3):
+                one = np.asarray(ip.brightest_pixel(frames[i].copy(), float(frac)), float)
+                if st.shape != (2, 3) or not _same(st[:, i], one):
+                    bad.append(("brightest_pixel:stack-vs-frame:fraction-tie", dict(shape=[ny, nx], fraction=float(frac), stack=st[:, i].tolist(), single=one.tolist())))
+                    return bad, n
+        cube = rng.integers(1, 30, size=(2, 3, ny, nx)).astype(float)
+        for name, f in (("centre_of_gravity", lambda a: ip.centre_of_gravity(a)), ("quadCell", None)):
+            if f is None:
+                q = rng.random((2, 3, 2, 2))
+                got = np.asarray(ip.quadCell(q), float)
+                want = np.array([[ip.quadCell(q[a, b]) for b in range(3)] for a in range(2)], float)          # (2, 3, 2)
+                n += 1
+                if got.shape != (2, 2, 3) or not np.allclose(got, np.moveaxis(want, -1, 0), rtol=0, atol=1e-12):
+                    bad.append(("quadCell:rank-4-cube", dict(shape=list(got.shape))))
+                    return bad, n
+                continue
+            got = np.asarray(f(cube.copy()), float)
+            n += 1
+            ok = got.shape == (2, 2, 3)
+            if ok:
+                for a in range(2):
+                    for b in range(3):
+                        ok = ok and _same(got[:, a, b], np.asarray(f(cube[a, b].copy()), float))
+            if not ok:
+                bad.append(("%s:rank-4-cube" % name, dict(shape=list(got.shape), frame_shape=[ny, nx])))
+                return bad, n
+    return bad, n
+
+
 def _ip():
     core.import_aotools()
     from aotools.image_processing import centroiders
@@ -192,6 +233,14 @@ def run(run):
                     run.drift(key, detail)
     if not r.printed:
         raise core.MachineryError("TLC printed no case")
+    with warnings.catch_warnings():
+        warnings.simplefilter("ignore")
+        with np.errstate(all="ignore"):
+            badr, nr = relation_sweep(ip, np.random.default_rng(run.seed))
+    run.traces += nr
+    run.aux["relation_sweep_calls"] = nr
+    for key, detail in badr:
+        run.violation(key, detail, dict(kind="sweep"))
     run.aux["cases_by_kind"] = kinds
     run.assumptions += [
         "scope = the cfg constants (all 3x3 images over 0..MaxVal, windowed 4x5 images, 2x2 contents for the correlation)",
@@ -207,6 +256,10 @@ def replay(run, case):
     with warnings.catch_warnings():
         warnings.simplefilter("ignore")
         with np.errstate(all="ignore"):
-            bad, drift = check_case(ip, case)
+            if case.get("kind") == "sweep":
+                bad, _ = relation_sweep(ip, np.random.default_rng(run.seed))
+                drift = []
+            else:
+                bad, drift = check_case(ip, case)
     for key, detail in bad:
         run.violation(key, detail, case)
